@@ -1,3 +1,6 @@
+mod c22;
+mod c23;
+mod c24;
 mod c25;
 mod c26;
 mod common;
@@ -11,6 +14,14 @@ fn main() {
     install_panic_hook();
     let ctx = Ctx::new(args.clone());
     let code = match args.property.as_str() {
+        "C22" => c22::run(&ctx),
+        "C23" => {
+            if args.extra.iter().any(|a| a == "--nest-child") {
+                std::process::exit(c23::nest_child());
+            }
+            c23::run(&ctx)
+        }
+        "C24" => c24::run(&ctx),
         "C25" => c25::run(&ctx),
         "C26" => c26::run(&ctx),
         other => {
